@@ -264,3 +264,95 @@ def replay(ctx, rep):
     for v in x.violations:
         print("  replayed:", v)
     return not x.violations
+
+
+# ---- threaded mode: blocking emit() from real threads under a baton ---------------------------
+from ..threads import ThreadedMixin   # noqa: E402
+
+
+class Threaded(ThreadedMixin, PipeScenario):
+    close_intervals = 6.0
+
+    def __init__(self, **p):
+        super().__init__(**p)
+        self.horizon = 2.0 if needs_clock(p["nodes"]) else 0.0
+
+    def site(self):
+        return "threaded/" + _site(self.params["nodes"])
+
+    def build(self):
+        from streamz import Stream
+        p = self.params
+        self.setup_threads()
+        self.src = Stream(asynchronous=False)
+        node = self.src
+        self.nodes = []
+        for spec in p["nodes"]:
+            node = self.build_node(node, spec)
+            self.nodes.append(node)
+        self.attach_sink(node)
+        n = p["n"]
+        self.add_emitter("t", self.src, list(range(1, n + 1)))
+        if p.get("nthreads", 1) == 2:
+            self.add_emitter("u", self.src, [101, 102][:n])
+
+    def finish(self):
+        self.teardown_threads()
+
+    def extra_events(self):
+        return self.thread_events()
+
+    def closing_events(self):
+        ev = self.thread_events()
+        return ev[0] if ev else None
+
+    def on_emit_done(self, producer, idx, x):
+        names = [parse(s)[0] for s in self.params["nodes"]]
+        if any(nm in BUFFERING or (nm == "partition" and needs_clock(self.params["nodes"])) for nm in names):
+            return
+        handling = _own_outputs(self, x)
+        fin = [b for b in self.finished()]
+        if any(b not in fin for b in handling):
+            self.violations.append(Violation("emit-before-consumer", self.site(), "consumer-still-handling",
+                                             dict(element=x, delivered=self.delivered(), finished=self.finished())))
+        elif all(nm in PASS_THROUGH for nm in names) and not handling:
+            self.violations.append(Violation("emit-before-consumer", self.site(), "not-yet-delivered",
+                                             dict(element=x, delivered=self.delivered())))
+
+    def check_final(self):
+        site = self.site()
+        stuck = [t.name for t in self.emitters if t.in_call or t.pos < len(t.items)]
+        if stuck:
+            return Violation("thread-stuck", site, "", dict(threads=stuck, delivered=self.delivered(), finished=self.finished()))
+        er = self.emit_raised()
+        if er:
+            return Violation("emit-raised", site, er[0][4], er)
+        names = [parse(s)[0] for s in self.params["nodes"]]
+        if not any(nm in ("sliding_window", "latest", "collect", "partition") for nm in names):
+            if sorted(flat(self.delivered())) != sorted(self.emitted()):
+                return Violation("queued-at-end", site, "", dict(emitted=self.emitted(), delivered=self.delivered()))
+        return None
+
+
+_async_factory = factory
+
+
+def factory(key):   # noqa: F811
+    if key[0] == "threaded":
+        _, nodes, kind, n, nthreads = key
+        return lambda: Threaded(nodes=tuple(s for s in nodes.split(",") if s), kind=kind, n=n, nthreads=nthreads)
+    return _async_factory(key)
+
+
+_async_plan = plan
+
+
+def plan(ctx):   # noqa: F811
+    jobs = _async_plan(ctx)
+    T = ctx.thorough
+    for nd in ("", "map", "slice", "buffer:1", "buffer:1,slice", "buffer:2,map", "map_async:1", "sliding_window:2", "rate_limit:1", "partition:2:1"):
+        for kind in (("future", "native", "gen", "sync") if (T or nd in ("", "buffer:1,slice")) else ("future", "sync")):
+            jobs.append((("threaded", nd, kind, 2, 1), 1))
+        if nd not in ("map_async:1", "partition:2:1") or T:
+            jobs.append((("threaded", nd, "future", 2 if nd not in ("map_async:1", "partition:2:1") else 1, 2), 1 if (T and nd not in ("map_async:1", "partition:2:1")) else 0))
+    return jobs
